@@ -4247,7 +4247,8 @@ class Macro:
                 MacroArgumentKind.LOOP: ("identifier_const",),
                 MacroArgumentKind.FINISHCODE: ("identifier_const",),
                 MacroArgumentKind.YIELDCODE: ("identifier_const",),
-                MacroArgumentKind.MATCH: ("regex", "end_expr", "concat_expr", "string_const", "string_case_const", "binary_regex", "binary_string_const"),
+                MacroArgumentKind.MATCH: ("regex", "end_expr", "concat_expr", "string_const", "string_case_const", "binary_regex", "binary_string_const",
+                                          "identifier_const"),  # (an identifier forwards the caller's own match argument)
                 MacroArgumentKind.INTEXPR: ("string_const", "bool_const", "number_const", "char_const", "identifier_const", *all_sum_expr_nodes)
             }[argspec.kind]
             if value.data not in allowed_types:
